@@ -555,6 +555,21 @@ def run_structured(ctx, cases, tag):
         lines.append("%s\topen\t%s\t%s\t%s" % (c["id"], c["fmt"], path, calls))
         info[c["id"]] = (c, path, m, s, known, legal, rn)
     ians = ctx.run_impl(lines, timeout=900)
+    # the same workbook opened by content (auto-detection) must be recognised as its format and list
+    # the same sheets, metadata and names as through the format's own reader
+    alines = ["%s_a\topen\tauto\t%s\tsheets;meta;names" % (cid, path) for cid, (c, path, m, s, known, legal, rn) in info.items()]
+    olines = ["%s_o\topen\t%s\t%s\tsheets;meta;names" % (cid, c["fmt"], path) for cid, (c, path, m, s, known, legal, rn) in info.items()]
+    aans = ctx.run_impl(alines + olines, timeout=900)
+    for cid, (c, path, m, s, known, legal, rn) in info.items():
+        a, o = aans.get(cid + "_a") or "abort", aans.get(cid + "_o") or "abort"
+        ctx.count("auto_detection_agrees")
+        if o.startswith("openerr") and a.startswith("openerr"):
+            continue
+        want = "auto=%s;;%s" % (c["fmt"], o)
+        if a != want:
+            ctx.violations.append({"case": {"line": alines[0].split("\t", 1)[0] + " open auto " + path, "file": path}, "expected": want[:1500],
+                                   "actual": a[:1500], "model": None,
+                                   "what": "a %s workbook opened through auto-detection is not reported like through its own reader" % c["fmt"]})
     for cid, (c, path, m, s, known, legal, rn) in info.items():
         impl, problems = impl_answer(c, ians.get(cid), rn)
         fmt = c["fmt"]
